@@ -119,6 +119,22 @@ pub fn run_bita(cwd: &Path, spec: &RunSpec) -> RunOut {
             args.insert(2, "X-Verif-Case: a b=c".into());
         }
     }
+    // --buffered-chunks has a default (CPU cores x 2) that the generated configurations never use: leave the option out in
+    // 1 run of 8 (not with memory-hungry compression levels: the default would run 32 encoders at once)
+    if matches!(args.first().map(|s| s.as_str()), Some("clone") | Some("compress")) && std::env::var("BVERIF_NO_VERBOSITY").is_err() {
+        let level: u32 = args.iter().position(|a| a == "--compression-level").and_then(|i| args.get(i + 1)).and_then(|v| v.parse().ok()).unwrap_or(6);
+        let salt = crate::engine::case_salt().to_le_bytes();
+        let mut parts: Vec<&[u8]> = args.iter().filter(|a| !a.starts_with("http://")).map(|a| a.as_bytes()).collect();
+        parts.push(&salt);
+        parts.push(b"buffered-chunks");
+        if level <= 6 && crate::engine::blake2_64(&parts) % 8 == 0 {
+            if let Some(i) = args.iter().position(|a| a == "--buffered-chunks") {
+                if i + 1 < args.len() {
+                    args.drain(i..i + 2);
+                }
+            }
+        }
+    }
     cmd.args(&args).current_dir(cwd);
     cmd.env("RUST_BACKTRACE", "0");
     cmd.env_remove("LD_PRELOAD");
